@@ -14,6 +14,15 @@ def Kind.all : List Kind := [.exact, .kiss, .sgpr, .svgp, .usvgp]
 
 theorem Kind.mem_all (k : Kind) : k ∈ Kind.all := by cases k <;> simp [Kind.all]
 
+theorem Cell.mem_bools (b : Bool) : b ∈ Cell.bools := by cases b <;> simp [Cell.bools]
+
+/-- `Cell.all` really lists every settings cell -/
+theorem Cell.mem_all (c : Cell) : c ∈ Cell.all := by
+  rcases c with ⟨a, b, c, d, e, f, g, h, i⟩
+  simp only [Cell.all, List.mem_flatMap, List.mem_singleton]
+  exact ⟨a, Cell.mem_bools a, b, Cell.mem_bools b, c, Cell.mem_bools c, d, Cell.mem_bools d, e, Cell.mem_bools e,
+    f, Cell.mem_bools f, g, Cell.mem_bools g, h, Cell.mem_bools h, i, Cell.mem_bools i, rfl⟩
+
 /-! ### What the proofs need from an invalidation table (every field is a decidable, finite fact) -/
 
 structure TableOK (T : Table) : Prop where
@@ -44,6 +53,11 @@ structure TableOK (T : Table) : Prop where
   /-- the attributes set to `None` around `deepcopy(self)` are all put back, in a `finally:` -/
   fantasy_finally : T.fantasyRestoreInFinally = true
   fantasy_all : T.fantasyNulled.all (T.fantasyRestored.contains ·) = true
+  /-- what `exact_prediction` of every strategy class reads / creates / pops, under every settings cell, is what
+      the specification `accessModel` says (in particular: an entry with two representations is re-validated) -/
+  access_ok : ∀ cls ∈ strategyClasses, ∀ c ∈ Cell.all, T.access cls false false c = accessModel cls false false c
+  /-- … and likewise what `get_fantasy_strategy` reads from the source strategy -/
+  fantasy_access_ok : ∀ cls ∈ strategyClasses, T.fantasyAccess cls .default = fantasyAccessModel cls .default
 
 instance (T : Table) : Decidable (TableOK T) :=
   decidable_of_iff
@@ -58,9 +72,11 @@ instance (T : Table) : Decidable (TableOK T) :=
      (∀ k ∈ Kind.all, ∀ sl ∈ attrsActive T k false, sl ∈ slotsOf k ∧ (sl == sStrat) = false) ∧
      T.legacyConversionClears = true ∧
      T.strategyKeyedOnLazy = true ∧ T.fantasyNeedsStrategy = true ∧ T.fantasyRestoreInFinally = true ∧
-     T.fantasyNulled.all (T.fantasyRestored.contains ·) = true)
-    ⟨fun ⟨a, b, c, d, e, f, g, h, m, i, j, k, l⟩ => ⟨a, b, c, d, e, f, g, h, m, i, j, k, l⟩,
-     fun ⟨a, b, c, d, e, f, g, h, m, i, j, k, l⟩ => ⟨a, b, c, d, e, f, g, h, m, i, j, k, l⟩⟩
+     T.fantasyNulled.all (T.fantasyRestored.contains ·) = true ∧
+     (∀ cls ∈ strategyClasses, ∀ c ∈ Cell.all, T.access cls false false c = accessModel cls false false c) ∧
+     (∀ cls ∈ strategyClasses, T.fantasyAccess cls .default = fantasyAccessModel cls .default))
+    ⟨fun ⟨a, b, c, d, e, f, g, h, m, i, j, k, l, n, o⟩ => ⟨a, b, c, d, e, f, g, h, m, i, j, k, l, n, o⟩,
+     fun ⟨a, b, c, d, e, f, g, h, m, i, j, k, l, n, o⟩ => ⟨a, b, c, d, e, f, g, h, m, i, j, k, l, n, o⟩⟩
 
 /-! ### Store predicates -/
 
@@ -210,7 +226,7 @@ def specAnswer (T : Table) (k : Kind) (training : Bool) (pv dv : Nat) (c : Cell)
     if training then ⟨false, cModule, pv, dv, []⟩
     else if prior then ⟨false, cModule, pv, dv, (attrsActive T k false).map fun sl => ⟨sl, pv, dv⟩⟩
     else
-      let cls := stratClassOf k (k == .exact || !(c != .eagerKernels))
+      let cls := stratClassOf k (k == .exact || c.eager)
       ⟨true, cls, pv, dv, (sStrat :: memoReads T cls c ++ attrsActive T k false).map fun sl => ⟨sl, pv, dv⟩⟩
   else if prior then ⟨false, cModule, pv, dv, []⟩
   else ⟨true, varClass k, pv, dv, (varReads k training c).map fun sl => ⟨sl, pv, dv⟩⟩
@@ -224,14 +240,96 @@ theorem specAnswer_current (T : Table) (k : Kind) (training : Bool) (pv dv : Nat
     · split <;> simp
   · split <;> simp
 
-theorem memoReads_sub (T : Table) (cls : Nat) (c : Cell) : ∀ sl ∈ memoReads T cls c, sl = sMean ∨ sl = sCovar := by
+theorem stratClassOf_mem (k : Kind) (d : Bool) : stratClassOf k d ∈ strategyClasses := by
+  cases k <;> cases d <;> decide
+
+theorem clearBy_of_not_cleared {effs : List Effect} {st : Store} {sl : Nat}
+    (h : effs.any (·.cleared sl) = false) : clearBy effs st sl = st sl := by
+  unfold clearBy
+  simp [h]
+
+/-- the specification re-validates every two-representation entry, so which slots a call reads does not depend on
+what is live -/
+theorem effReads_accessModel (cls : Nat) (c : Cell) (st : Store) :
+    effReads (accessModel cls false false c) st = effReads (accessModel cls false false c) (fun _ => none) := by
+  unfold accessModel
+  split
+  · rfl
+  · split
+    · cases c.skip <;> rfl
+    · split
+      · cases h : ((c.fpv || c.fps) && !c.skip) <;> simp [effReads]
+      · split
+        · cases h : (c.fpv && !c.skip && !false) <;> simp [effReads]
+        · rfl
+
+theorem accessModel_facts :
+    ∀ k ∈ Kind.all, ∀ d ∈ Cell.bools, ∀ c ∈ Cell.all, k.isExact = true →
+      (∀ sl ∈ effReads (accessModel (stratClassOf k d) false false c) (fun _ => none),
+          sl ∈ slotsOf k ∧ (sl == sStrat) = false) ∧
+      ((popped (accessModel (stratClassOf k d) false false c)).map Effect.delAttr).any (·.cleared sStrat) = false := by
+  decide +kernel
+
+/-- slots read by a strategy class that a model of kind `k` can have: slots of the kind, never slot 0 -/
+theorem accessModel_reads (k : Kind) (hk : k.isExact = true) (d : Bool) (c : Cell) (st : Store) :
+    ∀ sl ∈ effReads (accessModel (stratClassOf k d) false false c) st, sl ∈ slotsOf k ∧ (sl == sStrat) = false := by
+  rw [effReads_accessModel]
+  exact (accessModel_facts k (Kind.mem_all k) d (Cell.mem_bools d) c (Cell.mem_all c) hk).1
+
+/-- the pops of a call never remove the strategy object -/
+theorem popped_effects_keep_strategy (k : Kind) (hk : k.isExact = true) (d : Bool) (c : Cell) :
+    ((popped (accessModel (stratClassOf k d) false false c)).map Effect.delAttr).any (·.cleared sStrat) = false :=
+  (accessModel_facts k (Kind.mem_all k) d (Cell.mem_bools d) c (Cell.mem_all c) hk).2
+
+/-- the fantasy model's kind and the memo entries its strategy is born with -/
+theorem fantasyBorn_in_slots :
+    ∀ k ∈ Kind.all, ∀ d ∈ Cell.bools,
+      ∀ sl ∈ sStrat :: fantasyBornModel (if k.isExact then stratClassOf k d else cDefault),
+        sl ∈ slotsOf (if k.isExact then k else .exact) := by decide
+
+theorem effReads_fantasyAccessModel (cls : Nat) (c : Cell) (st : Store) :
+    effReads (fantasyAccessModel cls c) st = effReads (fantasyAccessModel cls c) (fun _ => none) := by
+  unfold fantasyAccessModel
+  split
+  · rfl
+  · split <;> rfl
+
+theorem fantasyAccessModel_facts :
+    ∀ k ∈ Kind.all, ∀ d ∈ Cell.bools, k.isExact = true →
+      ∀ sl ∈ effReads (fantasyAccessModel (stratClassOf k d) .default) (fun _ => none),
+        sl ∈ slotsOf k ∧ (sl == sStrat) = false := by decide
+
+/-- the slots read while building a fantasy model belong to the kind and none is slot 0 -/
+theorem fantasyReads_in_slots {T : Table} (hT : TableOK T) (s : State) :
+    ∀ sl ∈ fantasyReads T s, sl ∈ slotsOf s.kind ∧ (sl == sStrat) = false := by
   intro sl h
-  unfold memoReads at h
-  split at h
-  · simpa using h
-  · split at h
-    · simpa using h
-    · left; simpa using h
+  unfold fantasyReads at h
+  cases hk : s.kind.isExact with
+  | true =>
+    rw [hk, if_pos rfl, hT.fantasy_access_ok _ (stratClassOf_mem _ _), effReads_fantasyAccessModel] at h
+    exact fantasyAccessModel_facts s.kind (Kind.mem_all _) s.stratDefault (Cell.mem_bools _) hk sl h
+  | false =>
+    rw [hk] at h
+    simp only [Bool.false_eq_true, if_false, List.mem_cons, List.not_mem_nil, or_false] at h
+    revert hk
+    cases s.kind <;> simp [Kind.isExact] <;> rcases h with h | h | h <;> subst h <;> decide
+
+theorem fantasyModel_store (s : State) (sl : Nat) (e : Entry) (h : (fantasyModel s).store sl = some e) :
+    sl ∈ sStrat :: fantasyBornModel (if s.kind.isExact then stratClassOf s.kind s.stratDefault else cDefault) ∧
+    e = ⟨s.pv, s.dv + 1, false⟩ := by
+  have h' : (if (sl == sStrat) = true then some (⟨s.pv, s.dv + 1, false⟩ : Entry)
+      else if (fantasyBornModel (if s.kind.isExact then stratClassOf s.kind s.stratDefault else cDefault)).contains sl = true
+        then some ⟨s.pv, s.dv + 1, false⟩ else none) = some e := h
+  by_cases h1 : (sl == sStrat) = true
+  · rw [if_pos h1] at h'
+    have : sl = sStrat := by simpa using h1
+    exact ⟨by simp [this], by simpa using h'.symm⟩
+  · rw [if_neg h1] at h'
+    by_cases h2 : (fantasyBornModel (if s.kind.isExact then stratClassOf s.kind s.stratDefault else cDefault)).contains sl = true
+    · rw [if_pos h2] at h'
+      exact ⟨List.mem_cons_of_mem _ (by simpa using h2), by simpa using h'.symm⟩
+    · rw [if_neg h2] at h'
+      simp at h'
 
 theorem exact_slots (k : Kind) (hk : k.isExact = true) : sStrat ∈ slotsOf k ∧ sMean ∈ slotsOf k ∧ sCovar ∈ slotsOf k := by
   cases k <;> simp_all [Kind.isExact, slotsOf, sStrat, sMean, sCovar, sInterpInner, sInterpResp, sKMat, sKInvRoot]
@@ -297,7 +395,7 @@ theorem withStrategy_fields (c : Cell) :
 
 theorem withStrategy_spec (hk : s.kind.isExact = true) (htr : s.training = false) (c : Cell) :
     Inv (withStrategy T s c) ∧ ((withStrategy T s c).store sStrat).isSome = true ∧
-    (withStrategy T s c).stratDefault = (s.kind == .exact || !(c != .eagerKernels)) := by
+    (withStrategy T s c).stratDefault = (s.kind == .exact || c.eager) := by
   unfold withStrategy
   split
   · refine ⟨⟨hI.data, ?_, ?_, ?_⟩, by simp, rfl⟩
@@ -318,7 +416,9 @@ theorem withStrategy_spec (hk : s.kind.isExact = true) (htr : s.training = false
       · split at he
         · simp at he
         · exact hI.fresh htr sl e he
-    · intro _ _; rfl
+    · intro _ _
+      simp only
+      cases c.eager <;> simp
   · rename_i hn
     have hn' : needsNewStrategy T s c = false := by simpa using hn
     unfold needsNewStrategy at hn'
@@ -326,25 +426,45 @@ theorem withStrategy_spec (hk : s.kind.isExact = true) (htr : s.training = false
     obtain ⟨⟨h1, _⟩, h3⟩ := hn'
     have hs : (s.store sStrat).isSome = true := by
       cases hq : s.store sStrat <;> simp [hq] at h1 ⊢
-    have hl : s.stratLazy = (c != .eagerKernels) := by simpa using h3
-    exact ⟨hI, hs, by rw [hI.cls htr hs, hl]⟩
+    have hl : s.stratLazy = !c.eager := by
+      revert h3; cases s.stratLazy <;> cases c.eager <;> simp
+    refine ⟨hI, hs, ?_⟩
+    rw [hI.cls htr hs, hl]
+    cases c.eager <;> simp
+
+/-- the store a posterior call works on after its pops, and the slots it then reads: in terms of the specification -/
+theorem callPosterior_unfold (c : Cell) :
+    callPosterior T s c =
+      (let s0 := withStrategy T s c
+       let cls := stratClassOf s0.kind s0.stratDefault
+       let st0 := clearBy ((popped (accessModel cls false false c)).map .delAttr) s0.store
+       let reads := memoReads T cls c
+       let attrs := attrsActive T s0.kind false
+       let st := touchAll (touchAll st0 (fun sl => newEntry s (c.keepGraph && T.hookedSlot cls (baseSlot sl))) reads)
+                   (fun _ => newEntry s false) attrs
+       ({ s0 with store := st }, ⟨true, cls, s.pv, s.dv, usedOf s st (sStrat :: reads ++ attrs)⟩)) := by
+  unfold callPosterior memoReads
+  simp only
+  rw [hT.access_ok _ (stratClassOf_mem _ _) c (Cell.mem_all c), effReads_accessModel]
 
 theorem callPosterior_inv (hk : s.kind.isExact = true) (htr : s.training = false) (c : Cell) :
     Inv (callPosterior T s c).1 := by
-  obtain ⟨hI0, hs0, _⟩ := withStrategy_spec hT hI hk htr c
+  obtain ⟨hI0, hs0, hd0⟩ := withStrategy_spec hT hI hk htr c
   obtain ⟨fk, ft, fd, fp, fv⟩ := withStrategy_fields hT hI c
   have ha := hT.attrs_in_slots s.kind (Kind.mem_all _)
-  have hex := exact_slots s.kind hk
-  unfold callPosterior
+  rw [callPosterior_unfold hT hI c]
   simp only
+  have hreads : ∀ sl ∈ memoReads T (stratClassOf (withStrategy T s c).kind (withStrategy T s c).stratDefault) c,
+      sl ∈ slotsOf s.kind ∧ (sl == sStrat) = false := by
+    unfold memoReads
+    rw [hT.access_ok _ (stratClassOf_mem _ _) c (Cell.mem_all c), fk]
+    exact accessModel_reads s.kind hk _ c _
   refine ⟨by simpa [fd] using hI.data, ?_, ?_, ?_⟩
   · apply SuppS.touchAll
-    · apply SuppS.touchAll hI0.supp
+    · apply SuppS.touchAll (hI0.supp.clearBy _)
       intro sl hsl
       rw [fk]
-      rcases memoReads_sub _ _ _ sl hsl with h | h <;> rw [h]
-      · exact hex.2.1
-      · exact hex.2.2
+      exact (hreads sl hsl).1
     · intro sl hsl
       rw [fk] at hsl ⊢
       exact (ha sl hsl).1
@@ -353,7 +473,8 @@ theorem callPosterior_inv (hk : s.kind.isExact = true) (htr : s.training = false
     apply FreshS.touchAll
     · apply FreshS.touchAll
       · have := hI0.fresh (by rw [ft]; exact htr)
-        rwa [fp, fv] at this
+        rw [fp, fv] at this
+        exact this.clearBy _
       · intro sl; exact ⟨rfl, rfl⟩
     · intro sl; exact ⟨rfl, rfl⟩
   · intro _ _
@@ -362,39 +483,54 @@ theorem callPosterior_inv (hk : s.kind.isExact = true) (htr : s.training = false
 
 theorem callPosterior_answer (hk : s.kind.isExact = true) (htr : s.training = false) (c : Cell) :
     (callPosterior T s c).2 =
-      ⟨true, stratClassOf s.kind (s.kind == .exact || !(c != .eagerKernels)), s.pv, s.dv,
-       (sStrat :: memoReads T (stratClassOf s.kind (s.kind == .exact || !(c != .eagerKernels))) c
+      ⟨true, stratClassOf s.kind (s.kind == .exact || c.eager), s.pv, s.dv,
+       (sStrat :: memoReads T (stratClassOf s.kind (s.kind == .exact || c.eager)) c
           ++ attrsActive T s.kind false).map fun sl => ⟨sl, s.pv, s.dv⟩⟩ := by
   obtain ⟨hI0, hs0, hd0⟩ := withStrategy_spec hT hI hk htr c
   obtain ⟨fk, ft, fd, fp, fv⟩ := withStrategy_fields hT hI c
-  unfold callPosterior
+  rw [callPosterior_unfold hT hI c]
   simp only [fk, hd0]
   rw [usedOf_eq]
   intro sl hsl
+  -- the store after the pops: still fresh, still holding the strategy object
+  have hkeep := popped_effects_keep_strategy s.kind hk (s.kind == .exact || c.eager) c
+  have hfresh0 : FreshS s.pv s.dv
+      (clearBy ((popped (accessModel (stratClassOf s.kind (s.kind == .exact || c.eager)) false false c)).map .delAttr)
+        (withStrategy T s c).store) := by
+    have := hI0.fresh (by rw [ft]; exact htr)
+    rw [fp, fv] at this
+    exact this.clearBy _
   -- every slot read is live in the final store, and the final store is fresh
   have hfresh : FreshS s.pv s.dv
-      (touchAll (touchAll (withStrategy T s c).store
-        (fun sl => newEntry s (c == .noDetach && T.hookedSlot (stratClassOf s.kind (s.kind == .exact || !(c != .eagerKernels))) sl))
-        (memoReads T (stratClassOf s.kind (s.kind == .exact || !(c != .eagerKernels))) c))
+      (touchAll (touchAll
+        (clearBy ((popped (accessModel (stratClassOf s.kind (s.kind == .exact || c.eager)) false false c)).map .delAttr)
+          (withStrategy T s c).store)
+        (fun sl => newEntry s (c.keepGraph && T.hookedSlot (stratClassOf s.kind (s.kind == .exact || c.eager)) (baseSlot sl)))
+        (memoReads T (stratClassOf s.kind (s.kind == .exact || c.eager)) c))
         (fun _ => newEntry s false) (attrsActive T s.kind false)) := by
     apply FreshS.touchAll
-    · apply FreshS.touchAll
-      · have := hI0.fresh (by rw [ft]; exact htr)
-        rwa [fp, fv] at this
-      · intro sl; exact ⟨rfl, rfl⟩
+    · apply FreshS.touchAll hfresh0
+      intro sl; exact ⟨rfl, rfl⟩
     · intro sl; exact ⟨rfl, rfl⟩
-  have hlive : ∃ e, touchAll (touchAll (withStrategy T s c).store
-        (fun sl => newEntry s (c == .noDetach && T.hookedSlot (stratClassOf s.kind (s.kind == .exact || !(c != .eagerKernels))) sl))
-        (memoReads T (stratClassOf s.kind (s.kind == .exact || !(c != .eagerKernels))) c))
+  have hlive : ∃ e, touchAll (touchAll
+        (clearBy ((popped (accessModel (stratClassOf s.kind (s.kind == .exact || c.eager)) false false c)).map .delAttr)
+          (withStrategy T s c).store)
+        (fun sl => newEntry s (c.keepGraph && T.hookedSlot (stratClassOf s.kind (s.kind == .exact || c.eager)) (baseSlot sl)))
+        (memoReads T (stratClassOf s.kind (s.kind == .exact || c.eager)) c))
         (fun _ => newEntry s false) (attrsActive T s.kind false) sl = some e := by
     simp only [List.cons_append, List.mem_cons, List.mem_append] at hsl
     rcases hsl with h | h | h
     · subst h
       cases hq : (withStrategy T s c).store sStrat with
       | none => rw [hq] at hs0; simp at hs0
-      | some e => exact ⟨e, touchAll_of_some _ _ _ _ _ (touchAll_of_some _ _ _ _ _ hq)⟩
-    · obtain ⟨e, he⟩ := touchAll_live (withStrategy T s c).store
-        (fun sl => newEntry s (c == .noDetach && T.hookedSlot (stratClassOf s.kind (s.kind == .exact || !(c != .eagerKernels))) sl)) _ sl h
+      | some e =>
+        refine ⟨e, touchAll_of_some _ _ _ _ _ (touchAll_of_some _ _ _ _ _ ?_)⟩
+        rw [clearBy_of_not_cleared hkeep]
+        exact hq
+    · obtain ⟨e, he⟩ := touchAll_live
+        (clearBy ((popped (accessModel (stratClassOf s.kind (s.kind == .exact || c.eager)) false false c)).map .delAttr)
+          (withStrategy T s c).store)
+        (fun sl => newEntry s (c.keepGraph && T.hookedSlot (stratClassOf s.kind (s.kind == .exact || c.eager)) (baseSlot sl))) _ sl h
       exact ⟨e, touchAll_of_some _ _ _ _ _ he⟩
     · exact touchAll_live _ _ _ sl h
   obtain ⟨e, he⟩ := hlive
